@@ -67,12 +67,15 @@ def map34(ctx):
             okz = w is not None and equal(w, u, deep=False)
         ctx.ob('MAP34', loc + f34, '%s 3->4 after 4->3 is the identity on indices with vanishing sum' % what, bool(okz), node=ctx.fn(MIL, f34))
         # refusals
-        g = symarray('g', (4,), real=True)
-        paths = SymEval(module_aliases(ctx.mod(MIL))).run_fn(ctx.fn(MIL, f43), [g], {})
-        rs = [p for p in paths if p.done == 'raise']
-        ok = bool(rs) and all(any('sum' in c[0] or 'allclose' in c[0] for c in p.conds) for p in rs) and len([p for p in paths if p.done == 'return']) <= 1
-        # the returning path must carry the condition that the sum vanishes
-        ctx.ob('MAP34', loc + f43, '%s 4->3: indices whose first three do not sum to zero are refused' % what, ok, '%d raising path(s)' % len(rs), node=ctx.fn(MIL, f43))
+        def accepted(v):
+            try:
+                return bool([p for p in SymEval(module_aliases(ctx.mod(MIL))).run_fn(ctx.fn(MIL, f43), [arr(v)], {}) if p.done == 'return'])
+            except WouldRaise:
+                return False
+        verdicts = [(v, accepted(v)) for v in ([1, 2, 3, 5], [[1, 2, -3, 5], [1, 1, 1, 0]], [0, 0, 1, 0])] + [(v, not accepted(v)) for v in ([1, 2, -3, 5], [[1, 2, -3, 5], [2, -1, -1, 0]], [0, 0, 0, 4])]
+        ok = not any(a for v, a in verdicts[:3]) and not any(a for v, a in verdicts[3:])
+        ctx.ob('MAP34', loc + f43, '%s 4->3: indices whose first three do not sum to zero are refused (also one bad row in a batch); indices that do are accepted' % what, ok,
+               'wrongly accepted %s; wrongly refused %s' % ([v for v, a in verdicts[:3] if a], [v for v, a in verdicts[3:] if a]), node=ctx.fn(MIL, f43))
         for fn_, bad in ((f34, symarray('b', (4,))), (f43, symarray('b', (3,)))):
             paths = SymEval(module_aliases(ctx.mod(MIL))).run_fn(ctx.fn(MIL, fn_), [bad], {})
             ctx.ob('MAP34', loc + fn_, 'a wrong number of indices is refused', not [p for p in paths if p.done == 'return'], node=ctx.fn(MIL, fn_), key='shape ' + fn_)
